@@ -25,5 +25,5 @@ def search(ctx):
 MANIFEST = dict(
     text="Labelled transition system of one direction of one session with close (closeWithError, output loops, network, input, two-step Read) for TCP and UDP; refutation witnesses checked by vm_compute; an invariant proof over all schedules that EOF implies completeness when the close request was acted upon in order; a real client/server Mux pair on an in-memory network under virtual time runs write-n/close/read-to-EOF scenarios with every single-fault position, sustained loss, bounded/slow pipes and stalled readers; every scenario is judged against the property text and its abstract schedule is replayed on the extracted model.",
     note="Known findings (UDP): data unacknowledged or unsent at close time is dropped and the peer sees a clean EOF. Two small repairs applied: Read re-tests the queue when closed; acks no longer advance lastSend.",
-    technique="Coq proof (invariant over a step relation, witnesses by vm_compute) + trace-abstraction correspondence with the extracted model + end-to-end oracle under faketime",
+    technique="Coq proof (invariant over a step relation and over send-queue histories, witnesses by vm_compute) + trace-abstraction correspondence with the extracted model + end-to-end oracle under faketime",
 )
